@@ -453,7 +453,21 @@ func (s *aSuite) opTx(ext []string, nodes []*aNode, shape string) {
 		}
 		tx = b.GetTx()
 	}
+	// the wire path: encode and decode with the application's own codec whenever the decoder knows every extension option
+	// (an unregistered option type never gets past the decoder; it is handed to the ante handler directly instead)
+	wire := "direct"
+	if bz, e := s.txc.TxEncoder()(tx); e == nil {
+		if t2, e := s.txc.TxDecoder()(bz); e == nil {
+			tx, wire = t2, "wire"
+		}
+	}
+	s.stat["path:"+wire]++
 	cctx, _ := w.Ctx.CacheContext()
+	mode := "deliver"
+	if s.r.Intn(4) == 0 {
+		cctx = cctx.WithIsCheckTx(true)
+		mode = "check"
+	}
 	var err error
 	func() {
 		defer func() {
@@ -468,7 +482,7 @@ func (s *aSuite) opTx(ext []string, nodes []*aNode, shape string) {
 	for _, n := range nodes {
 		ns = append(ns, n.String())
 	}
-	s.t.Line(fmt.Sprintf("O %d tx ext=%s msgs=%s sign=%s shape=%s => %s | ", s.t.seq, strings.Join(ext, ";"), strings.Join(ns, ","), signed, shape, class))
+	s.t.Line(fmt.Sprintf("O %d tx ext=%s msgs=%s sign=%s shape=%s mode=%s path=%s => %s | ", s.t.seq, strings.Join(ext, ";"), strings.Join(ns, ","), signed, shape, mode, wire, class))
 	key := class
 	if strings.HasPrefix(class, "later:") {
 		m := err.Error()
